@@ -410,3 +410,34 @@ Proof.
   rewrite <- EU1, <- EU2, U1e, U2e. f_equal. f_equal.
   apply unpl_with_labels. rewrite <- Er0. exact Ur.
 Qed.
+
+(** ** The same two equalities for any cursor that stands on the record (any section field other than the question's) *)
+Theorem delete_fresh_is_delete_after_decompress_gen : forall p v qls qt lA lN lR sec r x it dv it' r',
+  bytes_ok p -> parse p = Ok v -> reading p qls qt lA lN lR -> sec = SAnswer \/ sec = SNameServers \/ sec = SAdditional ->
+  In (r, x) (sec_list sec lA lN lR) -> it_offset it = Some (rv_off r) -> it_name_end it = rv_name_end r ->
+  m_cursor_decompress (rv_off r) (v, it) = ((dv, it'), Ok tt) -> it_offset it' = Some (rv_off r') -> it_name_end it' = rv_name_end r' ->
+  dinv dv -> forall qls' qt' lA' lN' lR', reading (pp_packet dv) qls' qt' lA' lN' lR' -> In (r', x) (sec_list sec lA' lN' lR') -> rv_type r' = rv_type r ->
+  m_delete (v, it) = m_delete (dv, it').
+Proof.
+  intros p v qls qt lA lN lR sec r x it dv it' r' Hb Hp Rd Hsec Hin Eoff Ene Hdec Eoff' Ene' Hd qls' qt' lA' lN' lR' Rd' Hin' Ety.
+  pose proof (parse_maybe_compressed p v Hp) as Hmc. pose proof (di_mc _ Hd) as Hmc'.
+  assert (Hpk : pp_packet v = p).
+  { destruct (parse_view_pos p v Hb Hp) as (? & ? & ? & ? & ? & ? & ? & ? & ? & H & _). exact H. }
+  assert (Hall : forall s l1 l2 l3 (y : rec_view * rd_view), In y (sec_list s l1 l2 l3) -> s = SAnswer \/ s = SNameServers \/ s = SAdditional -> In y (l1 ++ l2 ++ l3)).
+  { intros s l1 l2 l3 y Hy [->|[->| ->]]; cbn [sec_list] in Hy; repeat (apply in_or_app; first [left; exact Hy|right]); exact Hy. }
+  destruct (reading_record_in _ _ _ _ _ _ Rd r x (Hall _ _ _ _ _ Hin Hsec)) as (_ & e & Hrec).
+  destruct (reading_record_in _ _ _ _ _ _ Rd' r' x (Hall _ _ _ _ _ Hin' Hsec)) as (_ & e' & Hrec').
+  pose proof (fresh_section p v qls qt lA lN lR sec r x it Hb Hp Rd Hsec Hin Eoff) as Es.
+  pose proof (dinv_section dv qls' qt' lA' lN' lR' sec r' x it' Hd Rd' Hsec Hin' Eoff') as Es'.
+  pose proof (it_rr_type_ok p v Hpk r e it Hrec Eoff Ene) as Et.
+  pose proof (it_rr_type_ok (pp_packet dv) dv eq_refl r' e' it' Hrec' Eoff' Ene') as Et'.
+  unfold m_delete.
+  unfold cbind at 1. unfold getv at 1. cbn [fst snd]. unfold cbind at 1. unfold getit at 1. cbn [fst snd]. rewrite Eoff.
+  unfold cbind at 1. unfold clift at 1. rewrite Es. unfold cbind at 1. unfold clift at 1. rewrite Et. cbn [bind]. rewrite Hmc.
+  unfold cbind at 1. rewrite Hdec.
+  symmetry.
+  unfold cbind at 1. unfold getv at 1. cbn [fst snd]. unfold cbind at 1. unfold getit at 1. cbn [fst snd]. rewrite Eoff'.
+  unfold cbind at 1. unfold clift at 1. rewrite Es'. unfold cbind at 1. unfold clift at 1. rewrite Et'. cbn [bind]. rewrite Hmc', Ety.
+  unfold cbind at 1. unfold cret at 1.
+  destruct (section_eqb sec SAdditional); reflexivity.
+Qed.
